@@ -45,6 +45,10 @@ func (i *Ignore) load(rootGoitPath string) error {
 	scanner := bufio.NewScanner(f)
 	for scanner.Scan() {
 		text := scanner.Text()
+		if text == "" {
+			// a blank line is not an entry (as a pattern it would match every directory)
+			continue
+		}
 		var replacedText string
 		// names are taken literally: only '*' is a wildcard
 		if directoryRegexp.MatchString(text) {
